@@ -15,6 +15,7 @@
 #include <stdint.h>
 #include <string.h>
 #include <math.h>
+#include <malloc.h>
 #include <pixman.h>
 
 enum { CK_PACKED = 0, CK_WIDE10, CK_SRGB, CK_INDEXED, CK_YUV, CK_FLOAT };
@@ -232,13 +233,22 @@ typedef struct pixman_implementation_t pixman_implementation_t;
 extern pixman_implementation_t *global_implementation;
 pixman_implementation_t *_pixman_choose_implementation(void);
 
-static const char *const c10_cfgs[] = { "", "ssse3", "sse2 ssse3", "mmx sse2 ssse3", "fast mmx sse2 ssse3" };
-static const char *const c10_cfg_names[] = { "default", "no-ssse3", "mmx+fast", "fast", "general" };
-#define C10_NCFGS 5
+static const char *const c10_cfgs[] = { "", "ssse3", "sse2 ssse3", "mmx sse2 ssse3", "fast mmx sse2 ssse3", "fast" };
+static const char *const c10_cfg_names[] = { "default", "no-ssse3", "mmx+fast", "fast", "general", "simd-no-fast" };
+#define C10_NCFGS 6
 
 /* Call in the PARENT before vf_space_run(): the forked workers inherit the chain and an empty
  * per-thread fast-path cache (the parent itself never composites, except in --replay mode where only
  * one space is executed). */
+/* keep freed blocks in the heap: the cases allocate and free buffers of up to a few MB at a high rate and
+ * would otherwise spend most of their time in mmap/munmap page faults */
+static inline void c10_tune_malloc(void)
+{
+    mallopt(M_MMAP_THRESHOLD, 1 << 30);
+    mallopt(M_TRIM_THRESHOLD, 1 << 30);
+    mallopt(M_TOP_PAD, 16 << 20);
+}
+
 static inline void c10_set_cfg(int cfg)
 {
     setenv("PIXMAN_DISABLE", c10_cfgs[cfg], 1);
